@@ -141,13 +141,22 @@ def check_proofs(prop: str, thorough: bool) -> dict:
         res["ok"] = False
         return res
     closed = len(re.findall(r"Closed under the global context", out))
-    blocks = re.findall(r"Axioms:\n((?:.+\n?)+?)(?=\n\S|\Z)", out)
     axioms: set[str] = set()
-    for m in re.finditer(r"^([A-Za-z_][\w.']*)\s*:", out, re.M):
-        name = m.group(1)
-        if name not in ("Axioms",):
-            axioms.add(name)
-    n_axiom_blocks = len(re.findall(r"^Axioms:", out, re.M))
+    n_axiom_blocks = 0
+    in_block = False
+    for ln in out.splitlines():
+        if ln.startswith("Axioms:"):
+            in_block = True
+            n_axiom_blocks += 1
+            continue
+        if in_block:
+            m = re.match(r"^([A-Za-z_][\w.']*)\s*:", ln)
+            if m:
+                axioms.add(m.group(1))
+            elif ln.startswith((" ", "\t")) and ln.strip():
+                continue            # continuation line of an axiom's type
+            else:
+                in_block = False
     bad = [a for a in axioms if a not in STDLIB_AXIOMS and a.split(".")[-1] not in {x.split(".")[-1] for x in STDLIB_AXIOMS}]
     res["axioms"] = sorted(axioms)
     res["discharged"] = closed + (n_axiom_blocks if not bad else 0)
